@@ -93,7 +93,8 @@ def _symex_job(args):
                     'assumptions': sorted(res.assumptions), 'dropped': res.dropped, 'symex_s': round(res.symex_s, 3),
                     'prune_checks': res.solver_checks, 'outcomes': res.outcomes,
                     'arith': unit.arith, 'props': unit.props, 'contract_file': os.path.relpath(unit.path, VERIF),
-                    'bounded': unit.opts.get('bounded'), 'unit_line': unit.node.lineno, 'unit_key': unit.key})
+                    'bounded': unit.opts.get('bounded'), 'unit_line': unit.node.lineno, 'unit_key': unit.key,
+                    'replay': unit.opts.get('replay')})
     except EngineError as e:
         out['error'] = 'EngineError: %s' % e
         out['trace'] = traceback.format_exc()
